@@ -170,7 +170,7 @@ PROPS = {
     },
     "C08": {
         "level": "other",
-        "rules": [("PA", 1, None), ("GL", 1, lambda r: "::bdd::" in r["key"] and (":GL9:" in r["key"] or ":GL6:" in r["key"] or ":GL12:" in r["key"])), ("DF", 1, has("WmcParams", "VarOrder", "label-tables")), ("DI", 0, None), ("SL", 7, None), ("CP", 2, has("smooth_helper")), ("VO", 3, has("var_at_level", "new_last", "VarOrder::new:inverse-by-construction")), ("LAW", 55, None), ("IC", 1, has("repr::wmc::")), ("LT", 1, has("WmcParams")), ("WT", 5, hasnot("from_litvec")), ("NB", 33, None),
+        "rules": [("PA", 1, None), ("VO", 3, has("iter-elements")), ("GL", 1, lambda r: "::bdd::" in r["key"] and (":GL9:" in r["key"] or ":GL6:" in r["key"] or ":GL12:" in r["key"])), ("DF", 1, has("WmcParams", "VarOrder", "label-tables")), ("DI", 0, None), ("SL", 7, None), ("CP", 2, has("smooth_helper")), ("VO", 3, has("var_at_level", "new_last", "VarOrder::new:inverse-by-construction")), ("LAW", 55, None), ("IC", 1, has("repr::wmc::")), ("LT", 1, has("WmcParams")), ("WT", 5, hasnot("from_litvec")), ("NB", 33, None),
                   ("SP", 14, has("SP1", "SP2")), ("MS", 13, None), ("SH", 1, has("BddPtr as repr::ddnnf::DDNNFPtr>::fold:SH5"))],
         "explanation": "Level bookkeeping of smooth_helper: every node built is labelled with var_at_level(current) or with a "
                        "node variable that a dominating test equates with it, children recurse one level down, smooth starts "
@@ -336,7 +336,7 @@ PROPS = {
     },
     "C19": {
         "level": "other",
-        "rules": [("PA", 1, None), ("DF", 1, has("VarOrder", "label-tables")), ("DI", 0, None), ("GL", 1, lambda r: "::bdd::" in r["key"] and (":GL9:" in r["key"] or ":GL6:" in r["key"] or ":GL12:" in r["key"])), ("MP", 8, hasnot("documented-order")), ("SL", 7, None), ("CP", 4, has("ser_bdd")), ("VO", 3, has("var_at_level", "VarOrder::new:inverse-by-construction")),
+        "rules": [("PA", 1, None), ("VO", 3, has("iter-elements")), ("DF", 1, has("VarOrder", "label-tables")), ("DI", 0, None), ("GL", 1, lambda r: "::bdd::" in r["key"] and (":GL9:" in r["key"] or ":GL6:" in r["key"] or ":GL12:" in r["key"])), ("MP", 8, hasnot("documented-order")), ("SL", 7, None), ("CP", 4, has("ser_bdd")), ("VO", 3, has("var_at_level", "VarOrder::new:inverse-by-construction")),
                   ("CN", 1, has("dedup")), ("DP", 9, has("from_dimacs:sign", "from_sexpr")), ("DP", 4, has("compile_logical_expr", "BottomUpPlan::from_dtree")), ("SR", 1, has("ser_bdd")),
                   ("NC", 4, has("Cnf::from_dimacs", "DTree::from_cnf")), ("MF", 4, None), ("EM", 3, has("DTree::from_cnf", "force_order", "average_span")), ("SH", 1, has("ite_helper:SH1")), ("UV", 1, None), ("TX", 1, has("Cnf::from_dimacs")), ("FS", 1, has("plan::bottom_up_plan::BottomUpPlan::"))],
         "explanation": "In each tool the counted / serialised diagram is the compiled one, compiled on a builder whose order "
